@@ -29,7 +29,9 @@ C14 line-protocol driver.
   rs <env> <files> <ev>;…   the real `caddy run [--resume] --envfile … --config …` (see harness resume.go)
       env   = x<val>h<val>      XDG_CONFIG_HOME, HOME of the process: - unset | e empty | 0..3 a directory
       files = . | <file>/<file>/…   file = _ | <var>=<val>,…   var = x | h | o
-      ev    = S:<r|->:<cfg> | P:<cfg> | K       cfg = <n><p|d|n>[x]
+      ev    = S:<r|->:<cfg> | P:<cfg> | Q:<cfg> | I:<cfg> | K     cfg = <n><p|d|n>[x|k][i|u] | c<n><d|n> (S only)
+              (P = POST /load; Q = PATCH /config/apps/c14probe, I = PATCH /id/a with the app object of cfg;
+               i / u = the app object carries @id a / b)
     answer per event: S=<running config>|S=fail, P=<ok|rej>|P=norun, K, each + {a=<autosave where the
     environment after the env files says>,b=<… where the process environment alone says>}
 
@@ -394,17 +396,47 @@ def parseEnvFileSpec (s : String) : Option EnvFile :=
 def parseEnvFiles (s : String) : Option (List EnvFile) :=
   if s == "." then some [] else (s.splitOn "/").mapM parseEnvFileSpec
 
-/-- cfg = <n><p|d|n>[x] -/
-def parseRSCfg (force : Bool) (s : String) : Option Load :=
-  match s.toList.span Char.isDigit with
+/-- a config token taken apart: <n><p|d|n>[x|k][i|u] -/
+structure RSTok where
+  num : List Char
+  persist : Char
+  fail : Bool
+  pki : Bool
+  id : Option Char
+deriving DecidableEq
+
+def RSTok.chars (t : RSTok) : List Char :=
+  t.num ++ [t.persist] ++ (if t.fail then ['x'] else []) ++ (if t.pki then ['k'] else []) ++
+    (match t.id with | some c => [c] | none => [])
+
+def parseRSTok (cs : List Char) : Option RSTok :=
+  match cs.span Char.isDigit with
   | (num, p :: rest) =>
-    if num.isEmpty || !isPersistFlag p || !(rest == [] || rest == ['x'] || rest == ['k']) then none else
-    some { cfg := str s, force := force, accepted := rest != ['x'], nonNil := true, persistCfg := p != 'n', allowPersist := true }
+    if num.isEmpty || !isPersistFlag p then none else
+    match rest with
+    | [] => some ⟨num, p, false, false, none⟩
+    | ['x'] => some ⟨num, p, true, false, none⟩
+    | ['k'] => some ⟨num, p, false, true, none⟩
+    | ['i'] => some ⟨num, p, false, false, some 'i'⟩
+    | ['u'] => some ⟨num, p, false, false, some 'u'⟩
+    | ['x', 'i'] => some ⟨num, p, true, false, some 'i'⟩
+    | ['x', 'u'] => some ⟨num, p, true, false, some 'u'⟩
+    | ['k', 'i'] => some ⟨num, p, false, true, some 'i'⟩
+    | ['k', 'u'] => some ⟨num, p, false, true, some 'u'⟩
+    | _ => none
   | _ => none
+
+def RSTok.load (force : Bool) (t : RSTok) : Load :=
+  { cfg := str (String.ofList t.chars), force := force, accepted := !t.fail, nonNil := true,
+    persistCfg := t.persist != 'n', allowPersist := true }
+
+/-- cfg = <n><p|d|n>[x|k][i|u] -/
+def parseRSCfg (force : Bool) (s : String) : Option Load := (parseRSTok s.toList).map (RSTok.load force)
 
 inductive RSEvent
   | start (resume : Bool) (cfg : Load)
   | push (cfg : Load)
+  | patch (byId : Bool) (t : RSTok)   -- PATCH /config/apps/c14probe | PATCH /id/a with the app object of `t`
   | kill
 
 /-- (S only) a Caddyfile: c<n><d|n> — adapted by the real adapter; `n` = `persist_config off` -/
@@ -424,6 +456,12 @@ def parseRSEvent (s : String) : Option RSEvent :=
   match s.splitOn ":" with
   | ["K"] => some .kill
   | ["P", c] => (parseRSCfg false c).map .push
+  | ["Q", c] => match parseRSTok c.toList with
+    | some t => if t.pki then none else some (.patch false t)
+    | none => none
+  | ["I", c] => match parseRSTok c.toList with
+    | some t => if t.pki then none else some (.patch true t)
+    | none => none
   | ["S", r, c] =>
     if r != "r" && r != "-" then none else
     match parseRSCfg true c with
@@ -432,7 +470,10 @@ def parseRSEvent (s : String) : Option RSEvent :=
   | _ => none
 
 /-- does the config (its bytes are its token) carry the pki app? -/
-def hasPKI (cfg : Bytes) : Bool := cfg.getLast? == some 107   -- 'k'
+def hasPKI (cfg : Bytes) : Bool :=
+  match parseRSTok (bytesToString cfg).toList with
+  | some t => t.pki
+  | none => false
 
 structure RSWorld where
   disk : CDisk
@@ -452,14 +493,20 @@ def rsState (pki : Bool) (w : RSWorld) (e : PEnv) (data : Option EnvVal) (files 
 /-- resumed bytes are loaded with forceReload; bytes that are not a config of this protocol are
     not loadable -/
 def rsAsLoad (b : Bytes) : Load :=
-  if hasPKI b then
-    match loadOfContent b.dropLast with
-    | some l => { l with cfg := b }
+  match parseRSTok (bytesToString b).toList with
+  | some t => t.load true
+  | none =>
+    match loadOfContent b with
+    | some l => l
     | none => { cfg := b, force := true, accepted := false, nonNil := true, persistCfg := true, allowPersist := true }
-  else
-  match loadOfContent b with
-  | some l => l
-  | none => { cfg := b, force := true, accepted := false, nonNil := true, persistCfg := true, allowPersist := true }
+
+/-- the document a sub-path write produces: the app object of `t` inside the running document
+    (persistence flag and pki app stay); `none`: the request is refused (no running document of this
+    protocol, or `/id/a` does not address the app) -/
+def patchedTok (byId : Bool) (t : RSTok) (cur : Option Bytes) : Option RSTok :=
+  match cur.bind fun c => parseRSTok (bytesToString c).toList with
+  | some r => if byId && r.id != some 'i' then none else some { t with persist := r.persist, pki := r.pki }
+  | none => none
 
 /-- a config with the pki app came up: its root is the stored one of the data directory, else new -/
 def withRoot (w : RSWorld) (cfg : Bytes) (dir : DataDir) : RSWorld × String :=
@@ -469,28 +516,41 @@ def withRoot (w : RSWorld) (cfg : Bytes) (dir : DataDir) : RSWorld × String :=
      "/r" ++ toString (useRoot w.roots dir w.nroots).1)
   else (w, "")
 
+/-- the world right after the load `l` of the running process `a` returned (roots not yet looked at) -/
+def rsLoaded (e : PEnv) (files : List EnvFile) (l : Load) (a : AState) (w : RSWorld) : RSWorld :=
+  ⟨w.disk.set (writerDir e files) (loadStep codeStyle l none a).st.fs, w.roots, w.nroots,
+   some (loadStep codeStyle l none a).st⟩
+
+/-- one pushed load on the running process `a`: the answer without its kind letter, and the world after -/
+def rsPushStep (pki : Bool) (e : PEnv) (data : Option EnvVal) (files : List EnvFile) (l : Load) (a : AState)
+    (w : RSWorld) : String × RSWorld :=
+  if (loadStep codeStyle l none a).res == .rejected then ("=rej" ++ rsState pki w e data files, w)
+  else
+    ("=ok" ++ (withRoot (rsLoaded e files l a w)
+                  (if (loadStep codeStyle l none a).res == .same then [] else l.cfg) (storageDir data e files)).2
+      ++ (if (loadStep codeStyle l none a).res == .same && hasPKI l.cfg then
+            "/r" ++ rootName (w.roots (storageDir data e files)) else "")
+      ++ rsState pki (withRoot (rsLoaded e files l a w)
+                  (if (loadStep codeStyle l none a).res == .same then [] else l.cfg) (storageDir data e files)).1 e data files,
+     (withRoot (rsLoaded e files l a w)
+        (if (loadStep codeStyle l none a).res == .same then [] else l.cfg) (storageDir data e files)).1)
+
 def rsOut (pki : Bool) (e : PEnv) (data : Option EnvVal) (files : List EnvFile) : List RSEvent → RSWorld → List String
   | [], _ => []
   | .kill :: evs, w => ("K" ++ rsState pki w e data files) :: rsOut pki e data files evs { w with run := none }
   | .push l :: evs, w =>
     match w.run with
     | none => ("P=norun" ++ rsState pki w e data files) :: rsOut pki e data files evs w
+    | some a => ("P" ++ (rsPushStep pki e data files l a w).1) :: rsOut pki e data files evs (rsPushStep pki e data files l a w).2
+  | .patch byId t :: evs, w =>
+    match w.run with
+    | none => ((if byId then "I" else "Q") ++ "=norun" ++ rsState pki w e data files) :: rsOut pki e data files evs w
     | some a =>
-      if (loadStep codeStyle l none a).res == .rejected then
-        ("P=rej" ++ rsState pki w e data files) :: rsOut pki e data files evs w
-      else
-        ("P=ok" ++ (withRoot { w with disk := w.disk.set (writerDir e files) (loadStep codeStyle l none a).st.fs
-                                      run := some (loadStep codeStyle l none a).st }
-                      (if (loadStep codeStyle l none a).res == .same then [] else l.cfg) (storageDir data e files)).2
-          ++ (if (loadStep codeStyle l none a).res == .same && hasPKI l.cfg then
-                "/r" ++ rootName (w.roots (storageDir data e files)) else "")
-          ++ rsState pki (withRoot { w with disk := w.disk.set (writerDir e files) (loadStep codeStyle l none a).st.fs
-                                            run := some (loadStep codeStyle l none a).st }
-                      (if (loadStep codeStyle l none a).res == .same then [] else l.cfg) (storageDir data e files)).1 e data files) ::
-          rsOut pki e data files evs
-            (withRoot { w with disk := w.disk.set (writerDir e files) (loadStep codeStyle l none a).st.fs
-                               run := some (loadStep codeStyle l none a).st }
-              (if (loadStep codeStyle l none a).res == .same then [] else l.cfg) (storageDir data e files)).1
+      match patchedTok byId t a.cur with
+      | none => ((if byId then "I" else "Q") ++ "=rej" ++ rsState pki w e data files) :: rsOut pki e data files evs w
+      | some t' =>
+        ((if byId then "I" else "Q") ++ (rsPushStep pki e data files (t'.load false) a w).1) ::
+          rsOut pki e data files evs (rsPushStep pki e data files (t'.load false) a w).2
   | .start r cfg :: evs, w =>
     if (firstLoad codeReadAt rsAsLoad ⟨e, files, r, cfg⟩ w.disk).accepted then
       ("S=" ++ bytesToString (firstLoad codeReadAt rsAsLoad ⟨e, files, r, cfg⟩ w.disk).cfg
@@ -509,6 +569,7 @@ def rsUsesPKI : List RSEvent → Bool
   | [] => false
   | .start _ l :: es => hasPKI l.cfg || rsUsesPKI es
   | .push l :: es => hasPKI l.cfg || rsUsesPKI es
+  | .patch _ _ :: es => rsUsesPKI es
   | .kill :: es => rsUsesPKI es
 
 def handleRS (env files evs : String) : String :=
